@@ -39,7 +39,9 @@ fn cfg<K: KeyT, V: ValT>(plan: Plan, universe: u8, seeds: Option<Vec<Vec<MapOp>>
 pub fn configs(tier: Tier) -> Vec<Box<dyn Config>> {
     let sse2 = super::width() == 16;
     let q = tier == Tier::Quick;
-    let mut v = Vec::new();
+    let mut v: Vec<Box<dyn Config>> = Vec::new();
+    // entry-style insertion into deep multi-home layouts at full load (layout grammar, RawTable::insert path)
+    v.push(Box::new(super::rehash::RehashGrammar { tier }));
     if sse2 {
         v.push(cfg::<TKey, TVal>(Plan::Zero, if q { 9 } else { 11 }, None, None, tier, ""));
         v.push(cfg::<PKey, PVal>(Plan::Seq, if q { 4 } else { 5 }, None, None, tier, ""));
